@@ -46,7 +46,7 @@ B("c01-extradata-dropped", "C01", SM, "                *(self.extradata or []),\
 B("c01-split-maxsplit", ["C01", "C04"], BASE, 'param = MSDParameter((key, *value.split(":")))', 'param = MSDParameter((key, *value.split(":", 1)))', "multi-value components")
 B("c01-multi-table-writer-only", ["C01"], BASE, "            elif key in BaseSimfile.MULTI_VALUE_PROPERTIES:\n                param = MSDParameter((key, *value.split", '            elif key in ("ATTACKS",):\n                param = MSDParameter((key, *value.split', "MULTI_VALUE")
 B("c01-join-first-two", ["C01", "C03"], SM, 'self[key] = ":".join(param.components[1:])', 'self[key] = ":".join(param.components[1:3])', "components")
-B("c01-join-sep", ["C01", "C03"], SM, 'self[key] = ":".join(param.components[1:])', 'self[key] = ";".join(param.components[1:])', "re-joined")
+B("c01-join-sep", ["C01", "C03"], SM, 'self[key] = ":".join(param.components[1:])', 'self[key] = ";".join(param.components[1:])', "each parameter")
 B("c01-none-guard-removed", ["C01", "C04"], BASE, "            if value is None:\n                param = MSDParameter((key,))\n            elif key in", "            if key in", "None")
 B("c01-skip-empty-values", ["C01", "C04"], BASE, "        for (key, value) in self.items():\n            if value is None:", "        for (key, value) in self.items():\n            if value == \"\":\n                continue\n            if value is None:", "item loop")
 B("c01-no-blank-line", "C01", BASE, '        file.write("\\n")\n        self.charts.serialize(file)', "        self.charts.serialize(file)", "blank line")
@@ -66,7 +66,7 @@ B("c02-chart-split-removed", ["C02", "C04"], SSC, "            elif key in BaseS
 B("c02-parse-leak-to-simfile", ["C02", "C03"], SSC, "            elif partial_chart is not None:\n                partial_chart[key] = value", "            elif partial_chart is not None and key != \"CREDIT\":\n                partial_chart[key] = value", "chart")
 B("c02-last-chart-not-appended", ["C02", "C03"], SSC, "        if partial_chart is not None:\n            self.charts.append(partial_chart)\n\n    @property", "    @property", "last open chart")
 B("c02-close-after-open", ["C02", "C03"], SSC, "                if partial_chart is not None:\n                    self.charts.append(partial_chart)\n                partial_chart = SSCChart()", "                old_chart = partial_chart\n                partial_chart = SSCChart()\n                if old_chart is not None:\n                    self.charts.append(partial_chart)", None)
-B("c02-break-test-value", ["C02", "C03"], SSC, 'if key in ("NOTES", "NOTES2"):\n                break', 'if key in ("NOTES",):\n                break', "stops at the notes item")
+B("c02-break-test-value", ["C02", "C03"], SSC, 'if key in ("NOTES", "NOTES2"):\n                break', 'if key in ("NOTES",):\n                break', "notes item")
 B("c02-ssc-simfile-value-first-only", ["C02", "C03"], SSC, '                value: Optional[str] = ":".join(param.components[1:])', "                value: Optional[str] = param.value", None)
 
 # --------------------------------------------------------------------------- C03
@@ -378,7 +378,7 @@ B("c09-join-extra-condition", "C09", GROUP, "    if join_heads_to_tails:\n      
 B("c07-keysound-list-hoisted", ["C07", "C08"], NOTES, "        for l, line in enumerate(lines):\n            line = line.strip()\n            keysound_indices: List[Optional[int]] = [None] * self._columns\n", "        keysound_indices: List[Optional[int]] = [None] * self._columns\n        for l, line in enumerate(lines):\n            line = line.strip()\n", "afresh")
 B("c11-coalesce-stale-cache", ["C11", "C13"], ENGINE, "                last_warp_end: Beat = warp_ends[-1].beat\n", "                last_warp_end: Beat = warp_ends[0].beat\n", "boundary")
 
-B("c03-keyonly-multi-joined", ["C01", "C03", "C04"], SM, "            elif key in BaseSimfile.MULTI_VALUE_PROPERTIES and param.value is not None:", "            elif key in BaseSimfile.MULTI_VALUE_PROPERTIES:", "key-only multi-value")
+B("c03-keyonly-multi-joined", ["C01", "C03", "C04"], SM, "            elif key in BaseSimfile.MULTI_VALUE_PROPERTIES and param.value is not None:", "            elif key in BaseSimfile.MULTI_VALUE_PROPERTIES:", "each parameter")
 P("p-keyonly-by-length", ["C01", "C03", "C04"], [(SM, "            elif key in BaseSimfile.MULTI_VALUE_PROPERTIES and param.value is not None:", "            elif key in BaseSimfile.MULTI_VALUE_PROPERTIES and len(param.components) > 1:")])
 VARIANTS.append({"id": "g-negate-every-if-else", "props": ALL, "kind": "preserve", "edits": [], "transform": "negate_if"})
 VARIANTS.append({"id": "g-return-through-temp", "props": ALL, "kind": "preserve", "edits": [], "transform": "return_temp"})
